@@ -308,6 +308,8 @@ struct Agg {
 }
 
 pub const DEFAULT_SEED: u64 = 20260925;
+/// failing scenarios kept per violation class (site, witness): the ones with the lowest run indices
+const KEEP_PER_CLASS: u32 = 4;
 
 /// Runs a whole tier of one property. Returns the process exit code.
 pub fn run_property(p: &dyn Property, opt: &Options) -> i32 {
@@ -322,6 +324,7 @@ pub fn run_property(p: &dyn Property, opt: &Options) -> i32 {
                 .stack_size(256 << 20)
                 .spawn_scoped(s, || {
                     let mut agg = Agg::default();
+                    let mut per_class: std::collections::HashMap<(String, String), u32> = std::collections::HashMap::new();
                     loop {
                         let i = next.fetch_add(1, Ordering::Relaxed);
                         if i >= n {
@@ -348,9 +351,14 @@ pub fn run_property(p: &dyn Property, opt: &Options) -> i32 {
                         match out {
                             ExecOutcome::Ok => {}
                             ExecOutcome::Fails(fs) => {
-                                // keep at most a bounded number of failing scenarios per worker
-                                if agg.fails.len() < 64 {
-                                    for f in fs {
+                                // keep a bounded number of failing scenarios per violation class (site, witness):
+                                // the lowest run indices. Bounding per class (not in total) keeps a frequent
+                                // known finding from crowding out a new class, and makes the kept set
+                                // independent of the number of workers (each worker sees increasing indices).
+                                for f in fs {
+                                    let c = per_class.entry((f.site.clone(), f.witness.clone())).or_insert(0u32);
+                                    if *c < KEEP_PER_CLASS {
+                                        *c += 1;
                                         agg.fails.push((i, sc.clone(), f));
                                     }
                                 }
@@ -379,6 +387,14 @@ pub fn run_property(p: &dyn Property, opt: &Options) -> i32 {
     });
     let mut agg = total.into_inner().unwrap();
     agg.fails.sort_by(|a, b| (a.0, &a.2.site, &a.2.witness).cmp(&(b.0, &b.2.site, &b.2.witness)));
+    {
+        let mut per_class: std::collections::HashMap<(String, String), u32> = std::collections::HashMap::new();
+        agg.fails.retain(|(_, _, f)| {
+            let c = per_class.entry((f.site.clone(), f.witness.clone())).or_insert(0);
+            *c += 1;
+            *c <= KEEP_PER_CLASS
+        });
+    }
     agg.harness.sort();
     agg.samples.sort_by_key(|s| s.0);
 
